@@ -92,6 +92,20 @@ Definition sha512_update := update (list N) sha512_compress 128.
 Definition sha512_finish := finish (list N) sha512_compress sha512_out 128 16 len128_impl.
 Definition sha512 := md_hash (list N) sha512_compress sha512_out H512 128 16 len128_spec 0.
 
+(* SHA-512/224 and SHA-512/256 (FIPS 180-4 5.3.6; src/digest.c sha512_224/256_digest_init since commit
+   93078f3; before it both started from H512 -- see sha512t_before_93078f3 in SHA2Proofs.v) *)
+Definition H512_224 : list N := [0x8c3d37c819544da2; 0x73e1996689dcd4d6; 0x1dfab7ae32ff9c82; 0x679dd514582f9fcf; 0x0f6d2b697bd44da8; 0x77e36f7304c48942; 0x3f9d85a86a1d36c8; 0x1112e6ad91d692a1].
+Definition H512_256 : list N := [0x22312194fc2bf72c; 0x9f555fa3c84c64c2; 0x2393b86b6f53b151; 0x963877195940eabd; 0x96283ee2a88effe3; 0xbe5e1e2553863992; 0x2b0199fc2c85b8aa; 0x0eb72ddc81c52ca2].
+Definition sha512_224_init := init (list N) H512_224 0.
+Definition sha512_224_finish c := firstn 28 (sha512_finish c).
+Definition sha512_224 m := firstn 28 (md_hash (list N) sha512_compress sha512_out H512_224 128 16 len128_spec 0 m).
+Definition sha512_256_init := init (list N) H512_256 0.
+Definition sha512_256_finish c := firstn 32 (sha512_finish c).
+Definition sha512_256 m := firstn 32 (md_hash (list N) sha512_compress sha512_out H512_256 128 16 len128_spec 0 m).
+(* the standard's IV generation function: SHA-512 started from H512 xor a5..a5 applied to "SHA-512/t" *)
+Definition sha512t_iv_gen (name : list N) : list N :=
+  md_hash (list N) sha512_compress sha512_out (map (fun h => N.lxor h 0xa5a5a5a5a5a5a5a5) H512) 128 16 len128_spec 0 name.
+
 Definition sha384_init := init (list N) H384 0.
 Definition sha384_finish c := firstn 48 (sha512_finish c).
 Definition sha384 m := firstn 48 (md_hash (list N) sha512_compress sha512_out H384 128 16 len128_spec 0 m).
